@@ -12,6 +12,10 @@ from tiv.paths import dedupe_by_stmt, leak_points
 from tiv.cfg import may_raise_sync
 
 RULES = {
+    "R6": "who-may-finalize: render_data.finalize() is called only from RenderIterator.close (under self._finalize_data), Renderable.draw's clean-up, "
+          "Renderable._init_render_ and RenderData.__del__; any other call site is reported",
+    "MEMO": "memo safety (shared, rules/common.py): a memoised function in this property's files (or called from them) is a function of its "
+            "arguments only (no terminal/ambient/receiver state outside the key) and no caller mutates its result in place",
     "R1": "once-flag: RenderData.finalize calls _finalize_render_data_ only under `not self.finalized` and sets the flag in a finally; "
           "__del__ only delegates to finalize; RenderIterator.close does everything under `if not self._closed`, sets _closed last and "
           "finalizes the data only under _finalize_data",
@@ -171,8 +175,15 @@ def run(ck, m):
             p = p or gh.search([gh.entry], lambda n, ex=ex: n is ex, avoid=is_close, from_succ=False, edge_ok=edge)
         ck.ob("R3", h, p is None, f"handler `except {norm(h.type) if h.type else ''}` of __next__ can be left without closing the iterator ({fmt_path(p) if p else ''}): "
               "after exhaustion or an error the data would stay un-finalized and further control operations would not raise", stmt=f"__next__: except {norm(h.type) if h.type else ''} closes")
-    dl = m.get(IT, "RenderIterator.__del__")
-    ck.ob("R3", dl, any(isinstance(c, ast.Call) and norm(c) == "self.close()" for c in body_walk(dl)), "__del__ must call close()", stmt="RenderIterator.__del__ closes")
+    dl = m.find(IT, "RenderIterator.__del__")
+    if dl is not None:
+        ck.ob("R3", dl, any(isinstance(c, ast.Call) and norm(c) == "self.close()" for c in body_walk(dl)), "__del__ must call close()", stmt="RenderIterator.__del__ closes")
+    else:
+        wf = [c for c in m.walk(IT) if isinstance(c, ast.Call) and (call_name(c) or "").endswith("finalize") and "weakref" in (call_name(c) or "") and len(c.args) >= 2]
+        strong = [c for c in wf if any(isinstance(x, ast.Name) and x.id in ("self", "new") for a_ in c.args[1:] for x in ast.walk(a_))]
+        ck.ob("R3", m.get(IT, "RenderIterator"), bool(wf) and not strong,
+              "RenderIterator has no __del__" + (": the weakref.finalize callback references the iterator itself (a bound method / closure over self keeps it alive, so an abandoned iterator is never collected and its render data never finalized)" if strong else " and no weakref.finalize: dropping an unexhausted iterator no longer finalizes its data"),
+              stmt="RenderIterator.__del__ closes")
 
     # ---- R4 ----------------------------------------------------------------------------
     n4 = 0
@@ -206,6 +217,25 @@ def run(ck, m):
         b = [s for s in f.body if not (isinstance(s, ast.Expr) and isinstance(s.value, ast.Constant))]
         ok = isinstance(b[0], ast.If) and norm(b[0].test) == "self._closed" and isinstance(b[0].body[0], ast.Raise) and "FinalizedIteratorError" in norm(b[0].body[0])
         ck.ob("R5", f, ok, f"{meth}() on a finalized iterator must raise FinalizedIteratorError before doing anything", stmt=f"{meth}: closed guard first")
+
+    # ---- R6: who may finalize render data ----------------------------------------------------------------------------------
+    ALLOWED_FIN = {("render/_iterator.py", "RenderIterator.close"), ("renderable/_renderable.py", "Renderable.draw"), ("renderable/_renderable.py", "Renderable._init_render_"),
+                   ("renderable/_types.py", "RenderData.__del__")}
+    n_fin = 0
+    for rel_, q_, fn_ in m.functions():
+        for c in body_walk(fn_):
+            if isinstance(c, ast.Call) and isinstance(c.func, ast.Attribute) and c.func.attr == "finalize" and not c.args and ("render_data" in norm(c.func.value) or norm(c.func.value) == "self" and q_.startswith("RenderData")):
+                n_fin += 1
+                qq = q_.split("#")[0]
+                ck.ob("R6", enclosing_stmt(c), (rel_, qq) in ALLOWED_FIN,
+                      f"{qq} finalizes render data (`{short(c, 50)}`): only the owner's end-of-life paths may (RenderIterator.close under _finalize_data, draw()'s clean-up, _init_render_); "
+                      "finalizing while frames can still be rendered - or data the iterator does not own - breaks 'finalized exactly once, after the last use'", stmt=f"who may finalize: {rel_}::{qq}")
+                if rel_ == "render/_iterator.py":
+                    ck.ob("R6", enclosing_stmt(c), "self._finalize_data" in econds(fn_, c), f"{qq}: the iterator may finalize only render data it owns (guard `self._finalize_data`)", stmt=f"{qq}: finalize under _finalize_data")
+    ck.expect(n_fin >= 4, f"expected >= 4 finalize() call sites, found {n_fin}")
+
+    from rules.common import rule_memo_safety
+    rule_memo_safety(ck, m, "MEMO", "C10")
 
 
 MUTANTS = [
